@@ -34,7 +34,8 @@ are a parameter `Sem`: arbitrary functions of exactly the values the code reads 
 (`Reads`), so whatever they compute can depend on the history only through those reads.
 
 `Variant` switches off individual resets (used for the negation witnesses in `Props/C16.lean`);
-`real` is the code as it is.
+`real` is the code as it is with "clear the caches" read as "drop every entry"; `realWalk` clears them
+the way Arpeggio does, by walking the parser model (the two are proved equal).
 -/
 namespace History
 open Peg
@@ -81,8 +82,84 @@ structure Hidden where
 structure Variant where
   resets : List Bool   -- `clone()`: container `i` is replaced by a fresh one
   clear : Bool         -- `Parser.parse`: `finally: if self.memoization: self._clear_caches()`
+  /-- how `_clear_caches` finds the caches: `false` = every entry of every rule object is dropped
+  (the abstraction the history theorems are proved for), `true` = as Arpeggio does it, by walking the
+  parser model and the comments model along `ParsingExpression.nodes` (`walkClear` below).
+  `Proofs/HistoryReach.lean` proves that the two agree (`run realWalk = run real`). -/
+  walk : Bool := false
 
 def real : Variant := { resets := [true, true, true, true, true, true], clear := true }
+
+/-- the code as it is, with Arpeggio's own way of clearing the memo caches -/
+def realWalk : Variant := { real with walk := true }
+
+/-! ### `ParsingExpression._clear_cache`: the walk over the parser model
+
+```python
+def _clear_cache(self, processed=None):
+    self._result_cache = {}
+    if not processed:
+        processed = set()
+    for node in self.nodes:
+        if node not in processed:
+            processed.add(node)
+            node._clear_cache(processed)
+```
+The walk follows `nodes` (the model's `kids`) only — **not** `Repetition.sep`, which Arpeggio keeps in a
+separate attribute.  `Parser._clear_caches` starts it at `parser_model` and at `comments_model`. -/
+
+def kidsOf (nodes : Array Node) (i : Nat) : List Nat :=
+  match nodes[i]? with
+  | some nd => nd.kids
+  | none => []
+
+/-- the recursion of `_clear_cache` with an explicit stack: `todo` = nodes still to be looked at,
+`done` = the set `processed`.  One unit of fuel per node taken from the stack. -/
+def walk (nodes : Array Node) : Nat → List Nat → List Nat → List Nat
+  | 0, _, done => done
+  | _+1, [], done => done
+  | f+1, x :: todo, done =>
+    if x ∈ done then walk nodes f todo done
+    else walk nodes f (kidsOf nodes x ++ todo) (x :: done)
+
+/-- number of `nodes` references in the whole table: a node is expanded at most once, so
+`1 + edges` units of fuel always suffice (`Proofs/HistoryReach.lean`, `walk_closed`) -/
+def edges (nodes : Array Node) : Nat := ((List.range nodes.size).map fun i => (kidsOf nodes i).length).sum
+
+/-- the rule objects whose `_result_cache` a `_clear_cache()` call on `root` empties -/
+def walkFrom (nodes : Array Node) (root : Nat) : List Nat := walk nodes (edges nodes + 1) [root] []
+
+/-- `Parser._clear_caches`: the parser model, then the comments model -/
+def clearedBy (nodes : Array Node) (top : Nat) (comments : Option Nat) : List Nat :=
+  walkFrom nodes top ++ (match comments with | some c => walkFrom nodes c | none => [])
+
+/-- what is left in the pool-wide cache after `_clear_caches` -/
+def walkClear (nodes : Array Node) (top : Nat) (comments : Option Nat) (cache : Cache) : Cache :=
+  let cl := clearedBy nodes top comments
+  cache.filter fun e => !cl.contains e.1.1
+
+/-- a `Match` object (`StrMatch`, `RegExMatch`, `EndOfFile`): `Match.parse` does not memoize.
+(A dangling index behaves the same: nothing is parsed, nothing stored.) -/
+def isTerm (nodes : Array Node) (i : Nat) : Bool :=
+  match nodes[i]? with
+  | none => true
+  | some nd => match nd.kind with
+    | .str | .re | .eof => true
+    | _ => false
+
+/-- the separator of node `i`, if it has one, is a `Match` object -/
+def sepTerm (nodes : Array Node) (i : Nat) : Bool :=
+  match nodes[i]? with
+  | some nd => match nd.sep with
+    | some sp => isTerm nodes sp
+    | none => true
+  | none => true
+
+/-- every repetition the walk of this parser reaches has a `Match` separator (textX's grammar language
+only allows string and regex matches as separators: `lang.py` `repeat_modifiers`).  The premise of
+"walking clears everything"; the driver evaluates it on every dumped parser model. -/
+def walkOK (nodes : Array Node) (top : Nat) (comments : Option Nat) : Bool :=
+  (clearedBy nodes top comments).all (sepTerm nodes)
 
 def rd (H : Hidden) (a : Nat) : List Nat := H.heap.getD a []
 def wr (H : Hidden) (a : Nat) (v : List Nat) : Hidden := { H with heap := H.heap.set a v }
@@ -168,7 +245,8 @@ def parseText (v : Variant) (W : World) (m : MM) (x : Inp) (cache : Cache) : Out
     | .nomatch => .noMatch (s1.nm.getD 0)
     | .fuel => .fuel
     | .bad => .bad
-  (o, s1.cache.length, if m.memo && v.clear then [] else s1.cache)
+  (o, s1.cache.length,
+   if m.memo && v.clear then (if v.walk then walkClear W.nodes m.top m.comments s1.cache else []) else s1.cache)
 
 /-- `_restore_user_attr_methods` (does something only if this parser holds a count) followed by
 `_discard_user_obj_attrs` / the pops of `_end_model_construction` -/
@@ -268,5 +346,8 @@ def run (v : Variant) (W : World) (sem : Sem) : List Op → Hidden → List (Opt
 
 /-- the process state right after `import textx` -/
 def empty : Hidden := {}
+
+/-- `walkOK` for every metamodel of the pool -/
+def World.walkOK (W : World) : Bool := W.mms.all fun m => History.walkOK W.nodes m.top m.comments
 
 end History
